@@ -74,12 +74,7 @@ Fixpoint npm_dep_entries (name : bytes) (d : npm_dep) : list (bytes * pkg) :=
   | NDep version commit nested =>
       match nested with
       | None => []
-      | Some ds =>
-          (fix go (l : list (bytes * npm_dep)) : list (bytes * pkg) :=
-             match l with
-             | [] => []
-             | (n, d') :: r => npm_dep_entries n d' ++ go r
-             end) ds
+      | Some ds => flat_map (fun nd => npm_dep_entries (fst nd) (snd nd)) ds      (* nested dependencies first *)
       end ++ [npm_dep_entry name version commit]
   end.
 Definition npm_deps_all (ds : list (bytes * npm_dep)) : list (bytes * pkg) :=
@@ -164,41 +159,68 @@ Definition extract_gomod (st : gomod_st) : outcome (list pkg) :=
   (* second deduplication pass on the values *)
   Ok (map snd (fold_left (fun d kv => gmap_set (snd kv) (snd kv) d) m2 [])).
 
-(* records: requirements with distinct module paths (versions written with the leading v), the go
-   directive; no replace directives in the claimed domain *)
-Record gomod_recs := { gq_requires : list pkg; gq_go : bytes }.
+(* records: requirements (module path, version without the leading v), replace directives (old path, old
+   version or [] for "all versions", new path, new version or [] for a local directory), go and toolchain
+   directives *)
+Record gomod_rrec := { rr_old : bytes; rr_oldv : bytes; rr_new : bytes; rr_newv : bytes }.
+Record gomod_recs := { gq_requires : list pkg; gq_replaces : list gomod_rrec; gq_go : bytes; gq_toolchain : bytes }.
+Definition vpre (v : bytes) : bytes := match v with [] => [] | _ => 118 :: v end.
 Definition struct_of_gomod (rs : gomod_recs) : gomod_st :=
-  {| gm_require := map (fun p => (fst p, 118 :: snd p)) (gq_requires rs); gm_replace := []; gm_go := gq_go rs; gm_toolchain := [] |}.
+  {| gm_require := map (fun p => (fst p, 118 :: snd p)) (gq_requires rs);
+     gm_replace := map (fun r => {| gr_old := rr_old r; gr_oldv := vpre (rr_oldv r); gr_new := rr_new r; gr_newv := vpre (rr_newv r) |}) (gq_replaces rs);
+     gm_go := gq_go rs; gm_toolchain := gq_toolchain rs |}.
+
+(* a replace directive applies to a requirement of its old path, of any version or of the stated one *)
+Definition rr_matches (r : gomod_rrec) (q : pkg) : bool :=
+  bytes_eqb (fst q) (rr_old r) && (is_nil (rr_oldv r) || bytes_eqb (snd q) (rr_oldv r)).
+Definition apply_replaces (rsl : list gomod_rrec) (q : pkg) : pkg :=
+  match find (fun r => rr_matches r q) rsl with Some r => (rr_new r, rr_newv r) | None => q end.
+(* the Go version reported for stdlib: the toolchain directive "go1.22.3[-suffix]" wins over the go directive *)
+Definition stdlib_version (go tc : bytes) : bytes :=
+  match tc with
+  | [] => go
+  | _ => let v := match cut DASH tc with Some (a, _) => a | None => tc end in
+         if has_prefix s_go v then skipn 2 v else v
+  end.
 Definition expected_gomod (rs : gomod_recs) : list pkg :=
-  gq_requires rs ++ (if is_nil (gq_go rs) then [] else [(s_stdlib, gq_go rs)]).
+  map (apply_replaces (gq_replaces rs)) (gq_requires rs) ++
+  (let gv := stdlib_version (gq_go rs) (gq_toolchain rs) in if is_nil gv then [] else [(s_stdlib, gv)]).
+(* distinct required paths; at most one replace per old path; the replacement paths are new, pairwise
+   distinct module paths (else the extractor merges the results) *)
 Definition wf_gomod (rs : gomod_recs) : bool :=
-  nodup_bytes (map fst (gq_requires rs)) && negb (bytes_mem s_stdlib (map fst (gq_requires rs))).
+  let rp := map fst (gq_requires rs) in
+  let olds := map rr_old (gq_replaces rs) in
+  let news := map rr_new (gq_replaces rs) in
+  nodup_bytes rp && negb (bytes_mem s_stdlib rp) &&
+  nodup_bytes olds && nodup_bytes news &&
+  forallb (fun n => negb (bytes_mem n rp) && negb (bytes_mem n olds) && negb (bytes_eqb n s_stdlib)) news.
 
 (* ------------------------------------------------------------------ correspondence records *)
-(* v1 oracle: every (name, version) of the nested tree, duplicates removed; claimed for trees whose
-   versions are plain registry versions *)
+(* v1: every (name, version) of the nested tree, duplicates removed; claimed for trees whose versions are
+   plain registry versions *)
 Fixpoint flat_v1 (name : bytes) (d : npm_dep) : list pkg :=
   match d with
   | NDep v c nested =>
       match nested with
       | None => []
-      | Some ds => (fix go (l : list (bytes * npm_dep)) : list pkg :=
-                      match l with [] => [] | (n, d') :: r => flat_v1 n d' ++ go r end) ds
+      | Some ds => flat_map (fun nd => flat_v1 (fst nd) (snd nd)) ds
       end ++ [(name, v)]
   end.
+Definition flat_v1_all (ds : list (bytes * npm_dep)) : list pkg := flat_map (fun nd => flat_v1 (fst nd) (snd nd)) ds.
 Fixpoint nodup_keep (l : list pkg) : list pkg :=
   match l with [] => [] | p :: r => if pkg_mem p r then nodup_keep r else p :: nodup_keep r end.
-Definition expected_v1 (ds : list (bytes * npm_dep)) : list pkg := nodup_keep (flat_map (fun nd => flat_v1 (fst nd) (snd nd)) ds).
+Definition expected_v1 (ds : list (bytes * npm_dep)) : list pkg := nodup_keep (flat_v1_all ds).
+(* plain registry versions: no commit, no npm: alias, no file: path, no '@' *)
 Fixpoint plain_v1 (d : npm_dep) : bool :=
   match d with
   | NDep v c nested =>
-      is_nil c && negb (has_prefix s_npm v) && negb (has_prefix s_file v) &&
+      is_nil c && negb (has_prefix s_npm v) && negb (has_prefix s_file v) && negb (contains_byte AT v) &&
       match nested with
       | None => true
-      | Some ds => (fix go (l : list (bytes * npm_dep)) : bool :=
-                      match l with [] => true | (_, d') :: r => plain_v1 d' && go r end) ds
+      | Some ds => forallb (fun nd => plain_v1 (snd nd)) ds
       end
   end.
+Definition wf_packagelock_v1 (ds : list (bytes * npm_dep)) : bool := forallb (fun nd => plain_v1 (snd nd)) ds.
 
 Record packagelock_case := {
   plc_claim : option (bool * list npm_rec);
@@ -238,7 +260,11 @@ Definition gomod_case_render_ok c :=
   match gmc_claim c with
   | None => true
   | Some rs => list_eqb pkg_eqb (gm_require (struct_of_gomod rs)) (gm_require (gmc_st c)) &&
-               bytes_eqb (gm_go (struct_of_gomod rs)) (gm_go (gmc_st c)) && is_nil (gm_replace (gmc_st c)) && is_nil (gm_toolchain (gmc_st c))
+               bytes_eqb (gm_go (struct_of_gomod rs)) (gm_go (gmc_st c)) &&
+               bytes_eqb (gm_toolchain (struct_of_gomod rs)) (gm_toolchain (gmc_st c)) &&
+               list_eqb (fun a b => bytes_eqb (gr_old a) (gr_old b) && bytes_eqb (gr_oldv a) (gr_oldv b) &&
+                                    bytes_eqb (gr_new a) (gr_new b) && bytes_eqb (gr_newv a) (gr_newv b))
+                        (gm_replace (struct_of_gomod rs)) (gm_replace (gmc_st c))
   end.
 Definition gomod_case_model_ok c := same_outcome (extract_gomod (gmc_st c)) (gmc_obs c).
 Definition gomod_case_claimed c := match gmc_claim c with None => false | Some rs => wf_gomod rs end.
